@@ -6,6 +6,11 @@ use proptest::test_runner::{Config, RngSeed, TestRunner};
 
 use crate::{catch, Args, Report};
 
+/// the values for a message: all of a short input, the head of a long one
+fn show(xs: &[i64]) -> String {
+   if xs.len() <= 40 { format!("{xs:?}") } else { format!("{:?}.. ({} values)", &xs[..12], xs.len()) }
+}
+
 pub fn check_all(xs: &[i64], p: f64, filtered: bool) -> Result<(), String> {
    let mut sorted = xs.to_vec();
    sorted.sort();
@@ -29,15 +34,15 @@ pub fn check_all(xs: &[i64], p: f64, filtered: bool) -> Result<(), String> {
    }
    let got: Vec<i64> = catch(|| min(it!()).collect()).map_err(|e| format!("min panicked: {e}"))?;
    if got != sorted.first().cloned().into_iter().collect::<Vec<_>>() {
-      return Err(format!("min({xs:?}) = {got:?}"));
+      return Err(format!("min({}) = {got:?}", show(xs)));
    }
    let got: Vec<i64> = catch(|| max(it!()).collect()).map_err(|e| format!("max panicked: {e}"))?;
    if got != sorted.last().cloned().into_iter().collect::<Vec<_>>() {
-      return Err(format!("max({xs:?}) = {got:?}"));
+      return Err(format!("max({}) = {got:?}", show(xs)));
    }
    let got: Vec<i64> = catch(|| sum(it!()).collect()).map_err(|e| format!("sum panicked: {e}"))?;
    if got != vec![xs.iter().sum::<i64>()] {
-      return Err(format!("sum({xs:?}) = {got:?}"));
+      return Err(format!("sum({}) = {got:?}", show(xs)));
    }
    let got: Vec<usize> = catch(|| count(unit_it!()).collect()).map_err(|e| format!("count panicked: {e}"))?;
    if got != vec![n] {
@@ -47,7 +52,7 @@ pub fn check_all(xs: &[i64], p: f64, filtered: bool) -> Result<(), String> {
    let got: Vec<f64> = catch(|| mean(small.iter().map(|x| (x,))).collect()).map_err(|e| format!("mean panicked: {e}"))?;
    let want: Vec<f64> = if n == 0 { vec![] } else { vec![small.iter().map(|x| *x as i64).sum::<i64>() as f64 / n as f64] };
    if got != want {
-      return Err(format!("mean({small:?}) = {got:?}, expected {want:?}"));
+      return Err(format!("mean over {n} values {:?}{} = {got:?}, expected {want:?}", &small[..n.min(12)], if n > 12 { ".." } else { "" }));
    }
    let got: Vec<()> = catch(|| not(unit_it!()).collect()).map_err(|e| format!("not panicked: {e}"))?;
    if got.len() != (n == 0) as usize {
@@ -61,7 +66,7 @@ pub fn check_all(xs: &[i64], p: f64, filtered: bool) -> Result<(), String> {
    } else {
       let rank = ((n as f64 * p / 100.0) as usize).min(n - 1);
       if got != vec![sorted[rank]] {
-         return Err(format!("percentile({p})({xs:?}) = {got:?}, expected the element of rank {rank} = {}", sorted[rank]));
+         return Err(format!("percentile({p})({}) = {got:?}, expected the element of rank {rank} = {}", show(xs), sorted[rank]));
       }
    }
    Ok(())
@@ -78,6 +83,13 @@ pub fn run(a: &Args, rep: &mut Report) {
       2 => (0i64..50, 2usize..30).prop_map(|(c, n)| vec![c; n]),
       2 => proptest::collection::vec(-100i64..100, 2..60).prop_map(|mut v| { v.sort(); v }),
       2 => proptest::collection::vec(-100i64..100, 2..60).prop_map(|mut v| { v.sort(); v.reverse(); v }),
+      // large groups, with sizes at and around powers of two (blocked / chunked implementations): a ramp, whose tail
+      // differs from its head, or a ramp with a few outliers
+      2 => (8u32..14, -2i64..=2, 0u8..3).prop_map(|(k, d, shape)| {
+         let n = ((1i64 << k) + d).max(2) as usize;
+         (0..n as i64).map(|i| match shape { 0 => i + 1, 1 => (i * 7919) % 1000 - 500, _ => if i % 97 == 0 { 100_000 } else { i % 5 } }).collect::<Vec<i64>>()
+      }),
+      1 => proptest::collection::vec(-1000i64..1000, 200..3000),
    ];
    // p: end points, uniform, and rank boundaries k*100/len +- eps
    let p = prop_oneof![
@@ -100,7 +112,7 @@ pub fn run(a: &Args, rep: &mut Report) {
          s.windows(2).any(|w| w[0] == w[1])
       };
       let boundary = len > 0 && ((len as f64 * p / 100.0).fract() < 1e-6 || p == 0.0 || p == 100.0);
-      *dist.borrow_mut().entry(format!("len_class={}", match len { 0 => "0", 1 => "1", 2..=9 => "2-9", _ => "10+" })).or_insert(0) += 1;
+      *dist.borrow_mut().entry(format!("len_class={}", match len { 0 => "0", 1 => "1", 2..=9 => "2-9", 10..=199 => "10-199", 200..=1023 => "200-1023", _ => "1024+" })).or_insert(0) += 1;
       if p == 100.0 {
          *dist.borrow_mut().entry("p=100".into()).or_insert(0) += 1;
       }
